@@ -543,8 +543,11 @@ class Machine(ApproxOps, TruncOps, HeteroOps):
                           dict(dim_y=[int(d) for d in dim_y], dim_x=[int(d) for d in dim_x]))
 
     # -- conditionals --------------------------------------------------------------------------
-    def condition_on_x(self, c, x):
+    def condition_on_x(self, c, x, via_call=False):
+        """via_call: through `cond(x)` (`__call__`), documented to be the same operation"""
         dst = self.new()
+        if via_call:
+            return self._emit(dst, "condition_on_x", [c, x], lambda: self.regs[c](self.regs[x]), dict(via="__call__"))
         return self._emit(dst, "condition_on_x", [c, x], lambda: self.regs[c].condition_on_x(self.regs[x]))
 
     def cond_mu(self, c, x):
